@@ -7,7 +7,7 @@ from .. import cases, oracles
 from . import _align_common as ac
 
 TITLE = "Gamma-cat and gamma-k follow their definition"
-DECIDING = ["M-CATDIS", "M-GAMMACAT", "M-REFUSE", "M-AGREE-1", "M-CATDIS-AFTER-EDIT", "M-CATDIS-CONCURRENT"]
+DECIDING = ["M-CATDIS", "M-GAMMACAT", "M-REFUSE", "M-AGREE-1", "M-CATDIS-AFTER-EDIT", "M-CATDIS-CONCURRENT", "M-GAMMACAT-ASKED-AGAIN"]
 LEVEL = "exploration"
 RULE = ("(A) Alignment.gamma_k_disorder(d, c) on library best / soft alignments and on hand-built random partitions "
         "with every pattern of empty slots (2-5 annotators), c in {None, each category present, one absent}, combined "
@@ -182,6 +182,22 @@ def check_gamma_case(ctx, case):
         ctx.fail_exc(f"compute_gamma-raises:{type(e).__name__}", e, monitor="M-GAMMACAT")
         return
     labels = cases.spec_labels(cspec)
+    # the same GammaResults object is asked again, in the reverse order: the answers are the ones it gave the first time
+    first_answers = {}
+    for rnd, order in enumerate(([None] + labels, list(reversed([None] + labels)))):
+        for c in order:
+            try:
+                with np.errstate(all="ignore"):
+                    v = float(res.gamma_cat if c is None else res.gamma_k(c))
+            except Exception:
+                continue
+            if rnd == 0:
+                first_answers[c] = v
+            elif c in first_answers:
+                ctx.count("M-GAMMACAT-ASKED-AGAIN")
+                a = first_answers[c]
+                if not (a == v or (a != a and v != v)):
+                    ctx.fail("gamma_cat/gamma_k:another-answer-when-asked-again", {"category": c, "first": a, "again": v}, monitor="M-GAMMACAT-ASKED-AGAIN")
     for c in [None] + labels:
         ctx.count("M-GAMMACAT")
         name = "gamma_cat" if c is None else "gamma_k"
